@@ -47,17 +47,20 @@ RFCNote1 == [h \in AllH |->
       [] h = "sha256" -> <<48, 49, 48, 13, 6, 9, 96, 134, 72, 1, 101, 3, 4, 2, 1, 5, 0, 4, 32>>
       [] h = "sha384" -> <<48, 65, 48, 13, 6, 9, 96, 134, 72, 1, 101, 3, 4, 2, 2, 5, 0, 4, 48>>
       [] h = "sha512" -> <<48, 81, 48, 13, 6, 9, 96, 134, 72, 1, 101, 3, 4, 2, 3, 5, 0, 4, 64>>]
+\* the same as a table (a constant: TLC evaluates it once)
+DITab == [h \in AllH |-> [n \in BOOLEAN |-> DigestInfo(h, n)]]
+DI(h, n) == DITab[h][n]
 Layouts == AllH \X BOOLEAN
 KBytes == {128, 192, 256, 384, 512}     \* modulus lengths 1024 .. 4096 bits
 
 \* ---- sanity theorems on the constants (stated here, ASSUMEd - i.e. evaluated by TLC - in MCAttest) ----
-T_RFC        == \A h \in AllH : DigestInfo(h, TRUE) = RFCNote1[h]
-T_NullIs2    == \A h \in AllH : Len(DigestInfo(h, TRUE)) = Len(DigestInfo(h, FALSE)) + 2
+T_RFC        == \A h \in AllH : DI(h, TRUE) = RFCNote1[h]
+T_NullIs2    == \A h \in AllH : Len(DI(h, TRUE)) = Len(DI(h, FALSE)) + 2
 \* byte-level layout uniqueness: no digest identifier is a prefix of another one, hence a byte string
 \* 00 01 FF..FF 00 T can be read as (identifier, digest) in at most one way
-T_PrefixFree == \A a, b \in Layouts : a # b => ~IsPrefixOf(DigestInfo(a[1], a[2]), DigestInfo(b[1], b[2]))
+T_PrefixFree == \A a, b \in Layouts : a # b => ~IsPrefixOf(DI(a[1], a[2]), DI(b[1], b[2]))
 \* at every modulus length of the quantifier a full-length encoding has at least 8 padding octets
-T_PS8        == \A k \in KBytes, h \in Hashes, n \in BOOLEAN : k - 3 - Len(DigestInfo(h, n)) - HLen[h] >= 8
+T_PS8        == \A k \in KBytes, h \in Hashes, n \in BOOLEAN : k - 3 - Len(DI(h, n)) - HLen[h] >= 8
 
 \* ---- abstract encoded message ----
 ByteClass == {"00", "01", "FF", "xx"}   \* xx: any other value, and different from the octet it replaces
@@ -80,7 +83,7 @@ EMRec(shape, lead, bt, psf, psm, psl, sep, pfx, xo, dgh, dgj, dgv) ==
      dgh |-> dgh,   \* the digest region is the dgh-digest of the to-be-signed bytes ...
      dgj |-> dgj,   \* ... with octet dgj (0 = none, -1 = digest of OTHER bytes) replaced by class dgv
      dgv |-> dgv]
-GoodEM(h, null) == EMRec("full", "00", "01", "FF", "FF", "FF", "00", DigestInfo(h, null), -1, h, 0, "00")
+GoodEM(h, null) == EMRec("full", "00", "01", "FF", "FF", "FF", "00", DI(h, null), -1, h, 0, "00")
 NoEM == EMRec("none", "00", "00", "00", "00", "00", "00", <<>>, -1, "none", 0, "00")
 
 ValidFor(em, h, null) ==
@@ -88,7 +91,7 @@ ValidFor(em, h, null) ==
     /\ em.lead = "00" /\ em.bt = "01"
     /\ em.psf = "FF" /\ em.psm = "FF" /\ em.psl = "FF"
     /\ em.sep = "00"
-    /\ em.pfx = DigestInfo(h, null)
+    /\ em.pfx = DI(h, null)
     /\ em.dgh = h /\ em.dgj = 0
 ValidEM(em, h) == h \in Hashes /\ (ValidFor(em, h, TRUE) \/ ValidFor(em, h, FALSE))
 
@@ -128,7 +131,7 @@ Clauses(c) == /\ c.rel = "root" /\ c.time = "valid"
               /\ c.alg \notin {0, 1, 2, 13, 14, 15, 16}
               /\ c.em.shape = "full" /\ c.em.lead = "00" /\ c.em.bt = "01" /\ c.em.sep = "00"
               /\ {c.em.psf, c.em.psm, c.em.psl} = {"FF"}
-              /\ \E h \in Hashes : /\ c.em.pfx \in {DigestInfo(h, TRUE), DigestInfo(h, FALSE)}
+              /\ \E h \in Hashes : /\ c.em.pfx \in {DI(h, TRUE), DI(h, FALSE)}
                                    /\ c.em.dgh = h /\ c.em.dgj = 0 /\ h = LabelHash(c.alg)
 Unique(em) == Cardinality({hn \in Layouts : ValidFor(em, hn[1], hn[2])}) <= 1
 
@@ -157,7 +160,7 @@ MutPfx(j, v) == Mutable /\ j \in 1..Len(c.em.pfx)
                 /\ Put("pfx", [c.em EXCEPT !.pfx[j] = ClsVal(v), !.xo = IF v = "xx" THEN c.em.pfx[j] ELSE -1])
 MutDg(j, v)  == Mutable /\ j \in 1..HLen[c.h0] /\ Put("dg", [c.em EXCEPT !.dgj = j, !.dgv = v])
 Reshape(s)   == Mutable /\ s # "full" /\ Put("shape", [c.em EXCEPT !.shape = s])
-PfxOther(h, n) == Mutable /\ h # c.h0 /\ Put("pfxother", [c.em EXCEPT !.pfx = DigestInfo(h, n)])
+PfxOther(h, n) == Mutable /\ h # c.h0 /\ Put("pfxother", [c.em EXCEPT !.pfx = DI(h, n)])
 DgOther(h)   == Mutable /\ h # c.h0 /\ Put("dgother", [c.em EXCEPT !.dgh = h])
 Next06 == \/ \E v \in ByteClass : MutLead(v) \/ MutBT(v) \/ MutPSf(v) \/ MutPSm(v) \/ MutPSl(v) \/ MutSep(v)
           \/ \E j \in 1..19, v \in ByteClass : MutPfx(j, v)
@@ -206,9 +209,11 @@ Serials5 == [1..3 -> B5] \cup [1..4 -> B5]
 T_AlphaInj == \A i, j \in 1..16 : i # j => Alphabet[i] # Alphabet[j]
 T_AlphaIs  == Alphabet = <<"c", "b", "d", "e", "f", "g", "h", "i", "j", "k", "l", "n", "r", "t", "u", "v">> /\ Len(Alphabet) = 16
 T_MHShape  == \A s \in Serials5 : LET m == ModHexSerial(s) IN m.ok /\ Len(m.s) = 8 /\ S(m.s) \subseteq S(Alphabet)
-T_MHInj    == \A s1, s2 \in Serials5 : ModHexSerial(s1).s = ModHexSerial(s2).s => Num(s1) = Num(s2)
-T_MHInjLen == \A n \in 3..4 : \A s1, s2 \in [1..n -> B5] : ModHexSerial(s1).s = ModHexSerial(s2).s => s1 = s2
-T_NibInj   == \A a, b \in 0..255 : Sym(<<a>>) = Sym(<<b>>) => a = b
+\* distinct serial NUMBERS give distinct strings (as many strings as (string, number) pairs), and distinct octet
+\* strings of the same length give distinct strings; stated through cardinalities so that TLC evaluates them in linear time
+T_MHInj    == Cardinality({ModHexSerial(s).s : s \in Serials5}) = Cardinality({<<ModHexSerial(s).s, Num(s)>> : s \in Serials5})
+T_MHInjLen == \A n \in 3..4 : Cardinality({ModHexSerial(s).s : s \in [1..n -> B5]}) = Cardinality([1..n -> B5])
+T_NibInj   == Cardinality({Sym(<<a>>) : a \in 0..255}) = 256 /\ \A a \in 0..255 : S(Sym(<<a>>)) \subseteq S(Alphabet)
 
 \* one record shape for all C16 cases (TLC wants homogeneous values in a variable)
 Case16(op, kt, sa, exts, tail, n, lead, trail, present, val) ==
@@ -253,6 +258,7 @@ Strict16(x, q) == CASE x.op = "parse"  -> q.pan = FALSE /\ q.yok = Design16(x).y
 \* the enumerating state machine: shapes grow by one feature per step
 CONSTANTS MHBytes,      \* octet values used for exported serial-extension values
           MaxVal        \* longest extension value (octets, header included)
+Sweep == {17 * n : n \in 0..15}     \* 00, 11, .., FF: every nibble value at every position of the serial
 Shape0 == Case16("parse", "rsa", "sha256-rsa", {}, "clean", 0, "none", "none", FALSE, <<>>)
 Init16 == /\ \/ \E kt \in KeyTypes16 \ {"rsa-nonull"}, sa \in SigAlgs16 : c = [Shape0 EXCEPT !.kt = kt, !.sa = sa]
              \/ c = [Shape0 EXCEPT !.op = "pem"]
@@ -269,8 +275,10 @@ MHPresent   == c.op = "modhex" /\ ~c.present /\ Go([c EXCEPT !.present = TRUE])
 MHAppend(b) == c.op = "modhex" /\ c.present /\ Len(c.val) < MaxVal
                /\ (Len(c.val) = 0 => b \in {2, 0, 255})                        \* tag octet: right or wrong
                /\ (Len(c.val) = 1 => b \in {0, 1, 2, 3, 4, 5, 6, 255})          \* length octet: right or wrong
-               /\ (Len(c.val) >= 2 => b \in MHBytes)
-               /\ (Len(c.val) >= 6 => b = c.val[Len(c.val)])                    \* long values: uniform tails only
+               /\ (Len(c.val) >= 2 => b \in MHBytes \cup Sweep)
+               /\ (Len(c.val) >= 2 => LET ct == SubSeq(c.val, 3, Len(c.val)) IN     \* sweep octets: uniform content only
+                                       (b \notin MHBytes \/ \E i \in 1..Len(ct) : ct[i] \notin MHBytes) => \A i \in 1..Len(ct) : ct[i] = b)
+               /\ (Len(c.val) >= 6 => \A i \in 3..Len(c.val) : c.val[i] = b)   \* longer than a 4-octet serial: uniform content only
                /\ ((Len(c.val) >= 3 /\ c.val[1] # 2) => b = c.val[Len(c.val)])  \* wrong tag: uniform content only
                /\ Go([c EXCEPT !.val = Append(@, b)])
 Next16 == \/ \E k \in ExtKinds : AddExt(k)
